@@ -1056,7 +1056,9 @@ func (c *compiler) evalCallExpression(node *ast.CallExpression) (interface{}, er
 		c.blockExit = blockExit
 	}
 	if len(res) > 0 {
-		if e, ok := res[len(res)-1].Interface().(error); ok {
+		last := res[len(res)-1]
+		if e, ok := last.Interface().(error); ok && !(last.Kind() == reflect.Ptr && last.IsNil()) {
+			// (a nil *MyErr declared as the result type is a nil error, not a failure)
 			return nil, fmt.Errorf("could not call %s function: %w", node.Function, e)
 		}
 		if node.ChainCallee != nil {
